@@ -15,6 +15,8 @@ theorem needs that bound).  Offsets are written as the macros expand them:
 * Byte counts handed to the allocator (`capacity * data_length`) are natural numbers; the guards
   of `new_conf` and `expand_capacity` keep the product `≤ CC_MAX_ELEMENTS < 2^64` (it is part of
   `Inv`), so no `size_t` wrap-around is hidden by that.
+* Every allocation and release goes through the triple stored in the struct (`triple`):
+  `Mem.allocT`/`Mem.freeT`; derived arrays copy it where the C code copies the three pointers.
 * A block obtained from `mem_alloc` is filled with `poison` (the harness allocator does that), a
   block from `mem_calloc` with 0. -/
 namespace CC
@@ -25,6 +27,8 @@ structure ArraySized where
   capacity : Nat
   grow     : Nat → Nat
   buf      : Buf Nat
+  /-- the allocator triple `mem_alloc/mem_calloc/mem_free` the struct carries -/
+  triple   : Triple := .conf
 
 namespace ArraySized
 open Gen
@@ -60,18 +64,21 @@ instance (a : ArraySized) : Decidable a.Inv := by unfold Inv; infer_instance
 expansion factor.  The second guard (repair A9) rejects element size 0 and every capacity whose
 buffer size in bytes `capacity * element_size` would exceed `CC_MAX_ELEMENTS` (so the product
 handed to `mem_alloc` cannot wrap around `size_t`). -/
-def new (dl cap : Nat) (grow : Nat → Nat) (exGe : Nat → Bool) (m : Mem) :
+def new (dl cap : Nat) (grow : Nat → Nat) (exGe : Nat → Bool) (m : Mem) (t : Triple := .conf) :
     Stat × Option ArraySized × Mem :=
   if cap = 0 || exGe (CC_MAX_ELEMENTS / cap) then (.errInvalidCapacity, none, m) else
   if dl = 0 || cap > CC_MAX_ELEMENTS / dl then (.errInvalidCapacity, none, m) else
-  let a1 := m.alloc
+  let a1 := m.allocT t
   if !a1.1 then (.errAlloc, none, a1.2) else
-  let a2 := a1.2.alloc
-  if !a2.1 then (.errAlloc, none, a2.2.free) else
-  (.ok, some { dataLen := dl, size := 0, capacity := cap, grow := grow, buf := fresh (cap * dl) }, a2.2)
+  let a2 := a1.2.allocT t
+  if !a2.1 then (.errAlloc, none, a2.2.freeT t) else
+  (.ok, some { dataLen := dl, size := 0, capacity := cap, grow := grow, buf := fresh (cap * dl), triple := t }, a2.2)
+
+/-- the configuration a derived array inherits: growth rule and allocator triple -/
+def cfg (a : ArraySized) : (Nat → Nat) × Triple := (a.grow, a.triple)
 
 /-- `cc_array_sized_destroy` -/
-def destroy (_a : ArraySized) (m : Mem) : Mem := m.free.free
+def destroy (a : ArraySized) (m : Mem) : Mem := (m.freeT a.triple).freeT a.triple
 
 /-- the capacity `expand_capacity` asks for: the float product, or — when that made no progress
 (overflow, or a factor too small at this capacity) — one more slot, resp. `CC_MAX_ELEMENTS` -/
@@ -91,12 +98,12 @@ def expandCapacity (a : ArraySized) (m : Mem) : Stat × ArraySized × Mem :=
   let nc := a.nextCapacity
   let m := m.check (a.dataLen != 0)
   if nc > CC_MAX_ELEMENTS / a.dataLen then (.errMaxCapacity, a, m) else
-  let al := m.alloc
+  let al := m.allocT a.triple
   if !al.1 then (.errAlloc, a, al.2) else
   let nb := fresh (nc * a.dataLen)
   let m := al.2.check (a.size * a.dataLen ≤ nb.length && a.size * a.dataLen ≤ a.buf.length)
   let nb := nb.memcpy 0 a.buf 0 (a.size * a.dataLen)
-  let m := m.free
+  let m := m.freeT a.triple
   (.ok, { a with buf := nb, capacity := nc }, m)
 
 /-- `cc_array_sized_add` -/
@@ -247,12 +254,12 @@ def trimCapacity (a : ArraySized) (m : Mem) : Stat × ArraySized × Mem :=
   if a.size = a.capacity then (.ok, a, m) else
   let size := if a.size < 1 then 1 else a.size
   if size = a.capacity then (.ok, a, m) else
-  let al := m.alloc
+  let al := m.allocT a.triple
   if !al.1 then (.errAlloc, a, al.2) else
   let nb : Buf Nat := Buf.mk (size * a.dataLen)
   let m := al.2.check (a.size * a.dataLen ≤ nb.length && a.size * a.dataLen ≤ a.buf.length)
   let nb := nb.memcpy 0 a.buf 0 (a.size * a.dataLen)
-  let m := m.free
+  let m := m.freeT a.triple
   (.ok, { a with buf := nb, capacity := size }, m)
 
 /-- state of the `filter_mut` loop -/
@@ -344,22 +351,22 @@ def sort (a : ArraySized) (sortFn : List (List Nat) → List (List Nat)) : Array
 /-- `cc_array_sized_subarray` -/
 def subarray (a : ArraySized) (b e : Nat) (m : Mem) : Stat × Option ArraySized × Mem :=
   if b > e || e ≥ a.size then (.errInvalidRange, none, m) else
-  let a1 := m.alloc
+  let a1 := m.allocT a.triple
   if !a1.1 then (.errAlloc, none, a1.2) else
-  let a2 := a1.2.alloc
-  if !a2.1 then (.errAlloc, none, a2.2.free) else
+  let a2 := a1.2.allocT a.triple
+  if !a2.1 then (.errAlloc, none, a2.2.freeT a.triple) else
   let nb := fresh (a.capacity * a.dataLen)
   let size := e - b + 1
   let m := a2.2.check (size * a.dataLen ≤ nb.length && a.dataLen * b + size * a.dataLen ≤ a.buf.length)
   (.ok, some { dataLen := a.dataLen, size := size, capacity := size, grow := a.grow,
-               buf := nb.memcpy 0 a.buf (a.dataLen * b) (size * a.dataLen) }, m)
+               buf := nb.memcpy 0 a.buf (a.dataLen * b) (size * a.dataLen), triple := a.triple }, m)
 
 /-- `cc_array_sized_copy` -/
 def copy (a : ArraySized) (m : Mem) : Stat × Option ArraySized × Mem :=
-  let a1 := m.alloc
+  let a1 := m.allocT a.triple
   if !a1.1 then (.errAlloc, none, a1.2) else
-  let a2 := a1.2.alloc
-  if !a2.1 then (.errAlloc, none, a2.2.free) else
+  let a2 := a1.2.allocT a.triple
+  if !a2.1 then (.errAlloc, none, a2.2.freeT a.triple) else
   let nb : Buf Nat := Buf.mk (a.capacity * a.dataLen)
   let m := a2.2.check (a.size * a.dataLen ≤ nb.length && a.size * a.dataLen ≤ a.buf.length)
   (.ok, some { a with buf := nb.memcpy 0 a.buf 0 (a.size * a.dataLen) }, m)
@@ -379,10 +386,10 @@ def filterLoop (a : ArraySized) (p : List Nat → Bool) : Nat → Nat → Buf Na
 /-- `cc_array_sized_filter` (the result index `f` and `filtered->size` advance together) -/
 def filter (a : ArraySized) (p : List Nat → Bool) (m : Mem) : Stat × List (List Nat) × Option ArraySized × Mem :=
   if a.size = 0 then (.errOutOfRange, [], none, m) else
-  let a1 := m.alloc
+  let a1 := m.allocT a.triple
   if !a1.1 then (.errAlloc, [], none, a1.2) else
-  let a2 := a1.2.alloc
-  if !a2.1 then (.errAlloc, [], none, a2.2.free) else
+  let a2 := a1.2.allocT a.triple
+  if !a2.1 then (.errAlloc, [], none, a2.2.freeT a.triple) else
   let nb : Buf Nat := Buf.mk (a.capacity * a.dataLen)
   let r := filterLoop a p a.size 0 nb 0 a2.2 []
   (.ok, r.2.2.2, some { a with buf := r.1, size := r.2.1 }, r.2.2.1)
